@@ -499,7 +499,13 @@ func simC14ng(c *sim.Ctx) {
 				o.Verdicts = append(o.Verdicts, pcapgo.NgEpbVerdict{Type: pcapgo.NgEpbVerdictType(c.Draw(3)), Data: fillBytes(uint64(i+k+9), c.Draw(12))})
 			}
 		}
-		if err := w.WritePacketWithOptions(p.ci, p.data, p.opts); err != nil {
+		if plain := optsEqual(p.opts, pcapgo.NgPacketOptions{}) && c.Draw(2) == 1; plain {
+			// a packet without options goes through either call
+			if err := w.WritePacket(p.ci, p.data); err != nil {
+				c.Fail("roundtrip", "write-error", "WritePacket", "%v", err)
+			}
+			c.Probe("plain_write_call_on_ng_writer")
+		} else if err := w.WritePacketWithOptions(p.ci, p.data, p.opts); err != nil {
 			c.Fail("roundtrip", "write-error", "WritePacketWithOptions", "%v", err)
 		}
 		flush()
